@@ -10,7 +10,7 @@
 From Coq Require Import NArith List Bool Lia ZArith.
 From Coq Require Import ZifyN ZifyBool ZifyNat.
 From DV Require Import C05.Schema C05.ProofsA C05.ProofsB C05.ProofsD.
-From DV Require C05.Model C05.Proofs.
+From DV Require C05.Model C05.Proofs C05.ProofsF.
 From DV Require Import Base.Outcome Base.Bytes Base.Names Base.PName C02.Gen C02.Model C02.SchemaModel
   C02.ProofsBasic C02.ProofsClone C02.ProofsRun C02.ProofsName C02.ProofsComp C02.ProofsStatic C02.ProofsHash C02.ProofsTop
   C02.ProofsLayout C02.ProofsRead C02.ProofsWrite C02.ProofsBuild C02.ProofsTotal.
@@ -259,4 +259,177 @@ Proof.
   pose proof (parse_compose pname_dec pname_dec_complete s v [] [] (C05.Proofs.schema_of_wf t s Hs) Hv) as P.
   cbn [app] in P. rewrite app_nil_r in P. unfold compose in P. change (len []) with 0 in P. rewrite N.add_0_l in P.
   rewrite P. reflexivity.
+Qed.
+
+(* ================= round 4: schemas with a cross-field check ============== *)
+
+Lemma fval_eq_cases a b : fval_eq a b -> a = b \/ exists n' n, a = VName n' /\ b = VName n.
+Proof. destruct a, b; cbn [fval_eq]; intros H; try (left; exact H). right. eauto. Qed.
+
+Lemma last_fval_eq r' r d : Forall2 fval_eq r' r -> fval_eq (last r' d) (last r d).
+Proof.
+  intros F. induction F as [|a b l' l Hab F IH]; [apply fval_eq_refl|].
+  destruct F as [|a2 b2 l2' l2 H2 F2]; [exact Hab|]. exact IH.
+Qed.
+
+(* the cross-field checks do not look at name octets *)
+Lemma post_check_fval_eq p v' v : Forall2 fval_eq v' v -> post_check p v' = post_check p v.
+Proof.
+  intros F. destruct p as [| |g]; [reflexivity| |].
+  - (* PSubnet: [VNum; VNum; VNum; VBytes] *)
+    cbn [post_check].
+    destruct F as [|a1 b1 l1' l1 H1 F]; [reflexivity|].
+    destruct (fval_eq_cases _ _ H1) as [->|(n' & n & -> & ->)]; [|reflexivity].
+    destruct b1; try reflexivity.
+    destruct F as [|a2 b2 l2' l2 H2 F]; [reflexivity|].
+    destruct (fval_eq_cases _ _ H2) as [->|(n' & n2 & -> & ->)]; [|reflexivity].
+    destruct b2; try reflexivity.
+    destruct F as [|a3 b3 l3' l3 H3 F]; [reflexivity|].
+    destruct (fval_eq_cases _ _ H3) as [->|(n' & n3 & -> & ->)]; [|reflexivity].
+    destruct b3; try reflexivity.
+    destruct F as [|a4 b4 l4' l4 H4 F]; [reflexivity|].
+    destruct (fval_eq_cases _ _ H4) as [->|(n' & n4 & -> & ->)]; [|reflexivity].
+    destruct b4; try reflexivity.
+    destruct F as [|a5 b5 l5' l5 H5 F]; reflexivity.
+  - (* PIpseckey: VNum :: VNum g' :: VNum alg :: rest, then the last of rest *)
+    cbn [post_check].
+    destruct F as [|a1 b1 l1' l1 H1 F]; [reflexivity|].
+    destruct (fval_eq_cases _ _ H1) as [->|(n' & n & -> & ->)]; [|reflexivity].
+    destruct b1; try reflexivity.
+    destruct F as [|a2 b2 l2' l2 H2 F]; [reflexivity|].
+    destruct (fval_eq_cases _ _ H2) as [->|(n' & n2 & -> & ->)]; [|reflexivity].
+    destruct b2; try reflexivity.
+    destruct F as [|a3 b3 l3' l3 H3 F]; [reflexivity|].
+    destruct (fval_eq_cases _ _ H3) as [->|(n' & n3 & -> & ->)]; [|reflexivity].
+    destruct b3; try reflexivity.
+    destruct (negb (n0 =? g)); [reflexivity|].
+    pose proof (last_fval_eq _ _ (VNum 0) F) as HL.
+    destruct (fval_eq_cases _ _ HL) as [->|(n' & n4 & -> & ->)]; reflexivity.
+Qed.
+
+(* ---- the record, for every schema (with or without a cross-field check) *)
+Theorem schema_record_reread_post c owner ty cls ttl s v w w' :
+  WG c ok12 w -> 12 <= mlen (w_buf w) ->
+  wf_schema_full s = true -> wf_value s v = true ->
+  name_ok owner -> ty < 65536 -> cls < 65536 -> ttl < 4294967296 ->
+  compose_record c (schema_record owner ty cls ttl s v) w = WOk w' ->
+  WG c ok12 w' /\
+  exists r' e1 v',
+    rd_record (w_buf w') (mlen (w_buf w)) (map shape_of (items_of (s_fields s) v)) = Ok (r', mlen (w_buf w')) /\
+    record_eqb r' (schema_record owner ty cls ttl s v) = true /\
+    (exists n', decode_name (w_buf w') (mlen (w_buf w)) (mlen (w_buf w')) = Ok (n', e1) /\ name_eqb n' owner = true) /\
+    parse_rdata pname_dec s (w_buf w') (e1 + 10) (mlen (w_buf w')) = Ok v' /\ Forall2 fval_eq v' v.
+Proof.
+  intros HW L12 Hs Hv Ho Ht Hc Hl H.
+  pose proof Hv as Hv0. unfold wf_value in Hv0. apply andb_true_iff in Hv0 as [Hv0 Hpost]. apply andb_true_iff in Hv0 as [Hvv Htot].
+  assert (Wr : wf_r (schema_record owner ty cls ttl s v)).
+  { unfold wf_r, schema_record; cbn [r_owner r_type r_class r_ttl r_data]. repeat split; auto; try apply Ho. apply wf_items_of. exact Hvv. }
+  destruct (compose_record_ok c _ w w' HW L12 Wr H) as (HW' & HR & _). split; [exact HW'|].
+  destruct (rd_record_ok _ _ _ _ HR) as (r' & RD & RE). cbn [schema_record r_data] in RD.
+  destruct HR as (e1 & Hn & _ & Hi & L1 & L2 & _). cbn [schema_record r_owner r_data] in Hn, Hi.
+  set (m := w_buf w') in *. set (e := mlen m) in *.
+  destruct (NameAtO_decode m (okb e) e (mlen (w_buf w)) owner e1 (okb_lt e) Hn) as (n' & D & Q).
+  unfold wf_schema_full in Hs. apply andb_true_iff in Hs as [Hsf Hk]. unfold wf_schema in Hsf.
+  destruct (parse_fields_items m (okb e) e (okb_lt e) (s_fields s) v (e1 + 10) Hsf Hvv Hi ltac:(unfold e; lia)) as (v' & PF & F2).
+  exists r', e1, v'. split; [exact RD|]. split; [exact RE|]. split; [exists n'; split; [exact D|exact Q]|]. split; [|exact F2].
+  unfold parse_rdata, parse_type.
+  pose proof (items_fixed_len m (okb e) (s_fields s) v (e1 + 10) e Hvv Hi) as Lfix.
+  assert (PC : post_check (s_post s) v' = None).
+  { rewrite (post_check_fval_eq _ _ _ F2). unfold post_ok in Hpost. destruct (post_check (s_post s) v); [discriminate|reflexivity]. }
+  destruct (s_long s) as [k|].
+  - apply N.leb_le in Hk.
+    destruct (N.ltb_spec (e - (e1 + 10)) k); [lia|].
+    destruct (N.ltb_spec 65535 (e - (e1 + 10) - k)); [lia|].
+    rewrite PF. cbn [bind fst snd]. rewrite N.eqb_refl, PC. reflexivity.
+  - rewrite PF. cbn [bind fst snd]. rewrite N.eqb_refl, PC. reflexivity.
+Qed.
+
+(* ---- schemas without compressible names: the record data is in the message
+   octet for octet, so ANY complete name decoder (the strict no-compression
+   decoder of IPSECKEY included) reads the value back exactly *)
+Lemma compose_items_flat c : forall items w w', existsb is_rname items = false ->
+  compose_items c items w = WOk w' -> w_buf w' = w_buf w ++ items_wire items.
+Proof.
+  induction items as [|it items IH]; intros w w' Hn H; cbn [compose_items] in H.
+  - injection H as <-. unfold items_wire. cbn [map concat]. rewrite app_nil_r. reflexivity.
+  - cbn [existsb] in Hn. apply orb_false_iff in Hn as [Hi Hn]. unfold items_wire in *. cbn [map concat].
+    destruct it as [b|n|n]; cbn [is_rname] in Hi; try discriminate.
+    + destruct (append_slice c b w) as [w1| | |] eqn:E; cbn [wbind] in H; try discriminate.
+      destruct (append_res c b w w1 E) as ((B & _) & _). rewrite (IH _ _ Hn H), B, <- app_assoc. reflexivity.
+    + destruct (append_slice c (wire_abs n) w) as [w1| | |] eqn:E; cbn [wbind] in H; try discriminate.
+      destruct (append_res c _ w w1 E) as ((B & _) & _). rewrite (IH _ _ Hn H), B, <- app_assoc. reflexivity.
+Qed.
+
+Theorem schema_record_reread_flat c owner ty cls ttl s v w w' :
+  WG c ok12 w -> 12 <= mlen (w_buf w) ->
+  wf_schema_full s = true -> wf_value s v = true -> has_compressible s = false ->
+  name_ok owner -> ty < 65536 -> cls < 65536 -> ttl < 4294967296 ->
+  compose_record c (schema_record owner ty cls ttl s v) w = WOk w' ->
+  exists e1 pre,
+    (exists n', decode_name (w_buf w') (mlen (w_buf w)) (mlen (w_buf w')) = Ok (n', e1) /\ name_eqb n' owner = true) /\
+    w_buf w' = pre ++ compose s v /\ len pre = e1 + 10 /\ mlen (w_buf w') = e1 + 10 + len (compose s v) /\
+    forall dec, dec_complete dec -> parse_rdata dec s (w_buf w') (e1 + 10) (mlen (w_buf w')) = Ok v.
+Proof.
+  intros HW L12 Hs Hv Hnc Ho Ht Hc Hl H.
+  pose proof Hv as Hv0. unfold wf_value in Hv0. apply andb_true_iff in Hv0 as [Hv0 _]. apply andb_true_iff in Hv0 as [Hvv _].
+  unfold compose_record in H. cbn [schema_record r_owner r_type r_class r_ttl] in H.
+  destruct (acn c owner w) as [w1| | |] eqn:E1; cbn [wbind] in H; try discriminate.
+  destruct (WG_acn c ok12 owner w w1 HW ltac:(unfold ok12; intros; lia) Ho E1) as (HW1 & HN & sfx1 & B1).
+  destruct (append_slice c (be16 ty) w1) as [w2| | |] eqn:E2; cbn [wbind] in H; try discriminate.
+  destruct (append_res c _ w1 w2 E2) as ((B2 & _) & _).
+  destruct (append_slice c (be16 cls) w2) as [w3| | |] eqn:E3; cbn [wbind] in H; try discriminate.
+  destruct (append_res c _ w2 w3 E3) as ((B3 & _) & _).
+  destruct (append_slice c (be32 ttl) w3) as [w4| | |] eqn:E4; cbn [wbind] in H; try discriminate.
+  destruct (append_res c _ w3 w4 E4) as ((B4 & _) & _).
+  unfold compose_len_rdata in H.
+  assert (UP : uses_prefix c (schema_record owner ty cls ttl s v) = false).
+  { unfold uses_prefix, schema_record; cbn [r_prefixed r_data orb]. rewrite is_rname_of by exact Hvv.
+    unfold has_compressible in Hnc. rewrite Hnc. apply andb_false_r. }
+  rewrite UP in H. cbn [schema_record r_data] in H.
+  destruct (rdlen_max <? rdata_ulen (items_of (s_fields s) v)); [discriminate|].
+  destruct (append_slice c (be16 (rdata_ulen (items_of (s_fields s) v))) w4) as [w5| | |] eqn:E5; cbn [wbind] in H; try discriminate.
+  destruct (append_res c _ w4 w5 E5) as ((B5 & _) & _).
+  assert (NR : existsb is_rname (items_of (s_fields s) v) = false).
+  { rewrite is_rname_of by exact Hvv. exact Hnc. }
+  pose proof (compose_items_flat c _ w5 w' NR H) as B6. rewrite items_wire_of in B6 by exact Hvv.
+  set (pre := w_buf w1 ++ be16 ty ++ be16 cls ++ be32 ttl ++ be16 (rdata_ulen (items_of (s_fields s) v))).
+  assert (Bw : w_buf w' = pre ++ compose s v).
+  { rewrite B6, B5, B4, B3, B2. unfold pre, compose. rewrite <- !app_assoc. reflexivity. }
+  assert (Lp : len pre = mlen (w_buf w1) + 10).
+  { unfold pre. rewrite !len_app. unfold be16, be32, len, mlen. cbn [length]. lia. }
+  exists (mlen (w_buf w1)), pre.
+  assert (Lw : mlen (w_buf w') = mlen (w_buf w1) + 10 + len (compose s v)).
+  { rewrite Bw. change (mlen (pre ++ compose s v)) with (len (pre ++ compose s v)). rewrite len_app, Lp. reflexivity. }
+  split; [|split; [exact Bw|split; [exact Lp|split; [exact Lw|]]]].
+  - (* the owner *)
+    assert (HN' : NameAtO (w_buf w') (fun i => ok12 i /\ i < mlen (w_buf w1)) (mlen (w_buf w)) owner (mlen (w_buf w1))).
+    { apply NameAtO_below in HN. rewrite Bw. unfold pre. rewrite <- app_assoc.
+      eapply NameAtO_agree; [apply agree_on_app|exact HN]. }
+    assert (OL : forall i, (fun i => ok12 i /\ i < mlen (w_buf w1)) i -> i < mlen (w_buf w')) by (cbv beta; intros i [_ Hi]; lia).
+    destruct (NameAtO_decode (w_buf w') _ (mlen (w_buf w')) _ owner _ OL HN') as (n' & D & Q).
+    exists n'. split; [exact D|exact Q].
+  - intros dec Hdec.
+    pose proof (parse_compose dec Hdec s v pre [] Hs Hv) as P. rewrite app_nil_r in P.
+    rewrite <- Bw in P. rewrite Lp in P. rewrite Lw. exact P.
+Qed.
+
+(* IPSECKEY as the library parses it (gateway type octet selects the row, the
+   gateway name must be uncompressed) and the edns-client-subnet option row *)
+Corollary ipseckey_record_reread c owner cls ttl g v w w' :
+  WG c ok12 w -> 12 <= mlen (w_buf w) -> g <= 3 ->
+  wf_value (C05.Model.ipseckey_schema g) v = true ->
+  name_ok owner -> cls < 65536 -> ttl < 4294967296 ->
+  compose_record c (schema_record owner 45 cls ttl (C05.Model.ipseckey_schema g) v) w = WOk w' ->
+  exists e1, (exists n', decode_name (w_buf w') (mlen (w_buf w)) (mlen (w_buf w')) = Ok (n', e1) /\ name_eqb n' owner = true) /\
+             C05.Model.ipseckey_parse (w_buf w') (e1 + 10) (mlen (w_buf w')) = Ok v.
+Proof.
+  intros HW L12 Hg Hv Ho Hc Hl H.
+  assert (NC : has_compressible (C05.Model.ipseckey_schema g) = false).
+  { unfold has_compressible, C05.Model.ipseckey_schema, C05.Model.gateway_fields; cbn [s_fields].
+    destruct (g =? 1); [reflexivity|]. destruct (g =? 2); [reflexivity|]. destruct (g =? 3); reflexivity. }
+  destruct (schema_record_reread_flat c owner 45 cls ttl _ v w w' HW L12 (C05.ProofsF.ipseckey_schema_wf g) Hv NC Ho ltac:(lia) Hc Hl H)
+    as (e1 & pre & HO & Bw & Lp & Lw & _).
+  exists e1. split; [exact HO|].
+  destruct (C05.ProofsF.ipseckey_parse_compose g v pre [] Hg Hv) as (P & _).
+  rewrite app_nil_r in P. rewrite <- Bw, Lp in P. rewrite Lw. exact P.
 Qed.
